@@ -98,9 +98,9 @@ CLAIMS = {
          "datagrams (held open, reset or finished), abrupt closes and hostile answers to the victim's own calls while honest peers run RPCs (panic hook, liveness and correctness monitors). Partial: Rust panic-freedom is exercised, not proved.",
          "panic-freedom of the transcribed Rust functions is exercised only."),
  "C12": ("Coq theorems on Rpc.v extended with abandonment (reset of the send half, stop of the receive half, possible in every caller state): once noticed, the handler is "
-         "dropped and none ever starts, closed streams are absorbing, every abandoned open stream has an enabled closing step, at server quiescence every abandoned stream is "
+         "dropped and none ever starts, a request given up while it still waits for the service's readiness (state SQueued, poll_ready back-pressure) is never handed to the handler, closed streams are absorbing, every abandoned open stream has an enabled closing step, at server quiescence every abandoned stream is "
          "closed (no credit leak), siblings are untouched; tied by trace acceptance of both ends' per-RPC events on Rpc.v (abandonment = Abandon then NoticeStop / NoticeReset; every abandoned stream must end closed at the accepting side) over fabric runs abandoning 3-8x the concurrent-stream limit of calls at instants sweeping the whole exchange, "
-         "with handler start/drop counters, live siblings and fresh RPCs afterwards. Partial: QUIC stream-state and credit accounting are quinn's.",
+         "with handler start/drop counters, live siblings and fresh RPCs afterwards, and by runs against a service behind a concurrency limit (calls abandoned while queued never reach the handler). Partial: QUIC stream-state and credit accounting are quinn's.",
          "quinn stream credit accounting is a validated model component."),
  "C08": ("Coq theorems on a transition system of the manager loop, handlers, API calls and shutdown(): the shutdown sequence never gets stuck and takes at most meas(s) steps, "
          "the active-peer set is empty when the cleanup is reached, afterwards no peers / handlers / handshakes remain and every API call ever issued has been answered, late "
